@@ -44,7 +44,7 @@ NB(t, d) == IF t = 1 /\ RandomElement(1..5) # 1 THEN 0 ELSE RandomElement({0, 0,
 TwoBases(a, b, nb) == IF nb = 0 THEN << >> ELSE IF nb = 1 \/ a = b THEN << a >> ELSE << a, b >>
 RandType(t, d) ==
   [bases |-> TwoBases(RandomElement(Cand(t, d)), RandomElement(Cand(t, d)), NB(t, d)),
-   props |-> SubSeq(<< RandProp(d), RandProp(d), RandProp(d), RandProp(d), RandProp(d), RandProp(d) >>, 1, RandomElement(0..MaxProps))]
+   props |-> SubSeq(<< RandProp(d), RandProp(d), RandProp(d), RandProp(d), RandProp(d), RandProp(d), RandProp(d), RandProp(d), RandProp(d) >>, 1, RandomElement(0..MaxProps))]
 
 Init == g = << >> /\ k = 0
 Next == /\ k < N
